@@ -1,7 +1,7 @@
-(* C14 phase 2: agreement of the two reader models on modules (part E4) *)
+(* C14 phase 2: agreement of the two reader models on the documented subset (part E4) *)
 From stdpp Require Import strings gmap sets pretty.
 From CG Require Import Model.FastVerilog Proofs.FastVerilogProofs Gen.Gen_fastv.
-From CG Require Import Proofs.FvA0 Proofs.FvA1 Proofs.FvA2 Proofs.FvA3 Proofs.FvA10 Proofs.FvC1 Proofs.FvE1 Proofs.FvE2 Proofs.FvE3.
+From CG Require Import Proofs.FvA0 Proofs.FvA1 Proofs.FvA2 Proofs.FvE1 Proofs.FvE2 Proofs.FvE3.
 Open Scope string_scope.
 
 Lemma add_buf_spec g n : okname n → add_node g n Buf [] = Ok (<[n := mk_node Buf false (fanin g n)]> g).
